@@ -186,6 +186,19 @@ def prepare_run_ctrl(ctx):
     ok = len(rcp.calls) == 1 and isinstance(rcp.calls[0][1].get("ctrl_variables"), dict) and \
         [getattr(e, "name", None) for e in rcp.calls[0][1]["ctrl_variables"].get("errors", ())] == ["PipeflowNotConverged"]
     ctx.decided("run_control/delegates-with-pipeflow-errors", "ensures", ok, witness=repr(rcp.calls)[:200])
+    # control variables supplied by the caller (the time-series loop hands in its ts_variables) reach
+    # pandapower's loop as the same object with their error classes untouched
+    rcp2 = Recorder("run_control_pandapower")
+    given = {"run": "user", "errors": ("PipeflowNotConverged", "NetCalculationNotConverged"), "other": 1}
+    paths = T.run_paths(ctx, RCT + ":run_control", lambda: ([K.NetObj({})], {"ctrl_variables": given}),
+                        hooks={"global": ext({"run_control_pandapower": rcp2,
+                                              "prepare_run_control_pandapower": prep})})
+    got = rcp2.calls[0][1].get("ctrl_variables") if rcp2.calls else None
+    ctx.decided("run_control/given-variables-forwarded", "ensures", got is given, witness=repr(got)[:200])
+    ctx.decided("run_control/given-error-classes-untouched", "ensures",
+                given.get("errors") == ("PipeflowNotConverged", "NetCalculationNotConverged") and
+                given.get("run") == "user" and given.get("other") == 1,
+                witness="caller's control variables after the call: %r" % (given,))
     ctx.decided("run_control/max_iter-forwarded", "ensures",
                 len(rcp.calls) == 1 and rcp.calls[0][1].get("max_iter") == 30, witness=repr(rcp.calls)[:200])
 
